@@ -199,8 +199,8 @@ def triage(unit, gen, vr, unit_cfg):
         if label is None:
             label = where or "?"
         # property attribution
-        mm = re.match(r"(C\d+)\.", label)
-        prop = mm.group(1) if mm else unit_cfg.get("default_property")
+        mm = re.match(r"((?:C\d+\+)*C\d+)\.", label)
+        prop = mm.group(1).split("+") if mm else [unit_cfg.get("default_property")]
         name = "%s/%s/%s/%s" % (unit, fn or "prelude", cls, label)
         failures.append({"obligation": name, "cls": cls, "property": prop, "fn": fn, "kind": kind,
                          "where": where, "rendered": d.get("rendered", ""), "message": msg})
@@ -331,7 +331,7 @@ def main():
         seen = set()
         for gl in gen.lines:
             o = gl.origin
-            if o[0] == "tpl" and o[2] and "@T" not in o[2] and o[2] not in seen and o[2].startswith(pid + "."):
+            if o[0] == "tpl" and o[2] and "@T" not in o[2] and o[2] not in seen and re.match(r"(?:C\d+\+)*" + pid + r"(?:\+C\d+)*\.", o[2]):
                 seen.add(o[2])
                 samples.append({"obligation": o[2], "unit": unit, "clause": gl.text.split("//")[0].strip()[:300]})
         # ---- vacuity canaries: each function under contract + `ensures false` must FAIL
@@ -371,8 +371,8 @@ def main():
                             all_tool.append({"kind": "brittle", "message": "unit %s passes with the default seed but not with smt.random_seed=%d: %s"
                                              % (unit, sd, "; ".join(x["obligation"] for x in f3) or "; ".join(x["message"] for x in t3))})
     # ---- attribute failures to this property
-    mine = [f for f in all_failures if f["property"] == pid]
-    others = [f for f in all_failures if f["property"] != pid]
+    mine = [f for f in all_failures if pid in f["property"]]
+    others = [f for f in all_failures if pid not in f["property"]]
     # a hint failure is "proof hint no longer applies": undecided unless a contract clause fails too
     hint_only = [f for f in mine if f["kind"] == "hint"]
     mine = [f for f in mine if f["kind"] != "hint"]
